@@ -107,7 +107,12 @@ class Shadow:
                 before = orig.cache_info().hits
                 v = orig(child_log_R_values, *a, **k)
                 sh._count("compute_log_S", orig, before, "logS", [sh._id("arr", np.ascontiguousarray(x).tobytes()) for x in child_log_R_values])
-                v2 = raw(np.array([np.array(x, copy=True) for x in child_log_R_values], order="C"), *a, **k) if len(child_log_R_values) else 0.0
+                arrs = np.array([np.array(x, copy=True) for x in child_log_R_values], order="C")
+                try:
+                    v2 = raw(arrs, *a, **k) if len(child_log_R_values) else 0.0
+                except TypeError:
+                    # extra arguments that only the memo wrapper consumes (e.g. precomputed key material)
+                    v2 = raw(arrs) if len(child_log_R_values) else 0.0
                 sh._cmp_arr("compute_log_S", v, v2, {"n_children": len(child_log_R_values)})
                 return v
             f.cache_info, f.cache_clear, f.__wrapped__ = orig.cache_info, orig.cache_clear, raw
@@ -258,14 +263,29 @@ def adversarial_alpha(sh, seed, thorough):
             kern = Kcls(td, rng, outlier_proposal_prob=0.1, perm_dist=perm)
             for alpha in ((1.0, 2.5, 1.0, 0.3, 2.5) if thorough else (1.0, 2.5, 1.0)):
                 td.prior.alpha = alpha
-                for pk in parents:
-                    ptree = absstate.build(pk, data)
-                    ppart = Particle(0, None, ptree, td, perm)
-                    d = max(absstate.data_ids(pk)) + 1
-                    sh.ctx = "reused %s, alpha set to %s without a clear, parent %s" % (Kcls.__name__, alpha, absstate.key_str(pk))
+                for pk in [None] + parents:
+                    if pk is None:       # first step of an SMC pass: no parent particle
+                        ptree, ppart, d = None, None, 0
+                    else:
+                        ptree = absstate.build(pk, data)
+                        ppart = Particle(0, None, ptree, td, perm)
+                        d = max(absstate.data_ids(pk)) + 1
+                    sh.ctx = "reused %s, alpha set to %s without a clear, parent %s" % (Kcls.__name__, alpha, "none" if pk is None else absstate.key_str(pk))
                     pd = kern.get_proposal_distribution(data[d], ppart, ptree)
                     for t, p, _ in enumerate_paths(lambda: pd.sample(), rng):
                         pd.log_p(t)
+                        # whatever memo produced this candidate: the densities it carries must be those of its tree under
+                        # the concentration value that is current NOW
+                        try:
+                            tr_ = t.tree
+                            pairs = (("log_p", float(t.log_p), float(td.log_p(tr_))), ("log_p_one", float(t.log_p_one), float(td.log_p_one(tr_))))
+                        except AttributeError:
+                            pairs = ()
+                        for nm_, got_, want_ in pairs:
+                            if abs(got_ - want_) > 1e-9 * (1 + abs(want_)):
+                                sh._viol("candidate_density", "a proposed tree carries %s = %.12g; its density under the current concentration value %s is %.12g" % (nm_, got_, alpha, want_),
+                                         {"alpha": alpha, "kernel": Kcls.__name__, "parent": None if pk is None else absstate.to_json(pk)})
+                                break
 
 
 def validate_cache_trace(ck, sh, corrupt=None):
@@ -377,6 +397,36 @@ def library_driving(sh, seed, thorough):
                 td.prior.alpha = 0.5 + (it % 5) * 0.4
 
 
+def edit_histories(sh, seed, thorough):
+    """Histories of the Tree edit grammar (TreeADT.tla's actions, in-place random walks incl. extracting / removing /
+    re-attaching subtrees so that inner clones become leaves and back) and the prune-regraft / subtree samplers started
+    from chain-shaped trees - every memoised call made along the way is shadow-compared."""
+    import numpy as np
+    from .. import treeadt, gridoracle
+    from phyclone.tree import FSCRPDistribution, TreeJointDistribution
+    from phyclone.mcmc.gibbs_mh import PruneRegraphSampler
+
+    n = 4
+    data = gridoracle.data_from_tables(gridoracle.int_tables(n, 2, 5, seed + 3), outlier_prob=0.2)
+    rs = np.random.RandomState(seed + 41)
+    td = TreeJointDistribution(FSCRPDistribution(1.3))
+    for w in range(60 if thorough else 25):
+        sh.ctx = "edit-grammar walk %d" % w
+        treeadt.walk(data, list(range(n)), 50, rs, td)
+    # chains top -> mid -> leaf (-> leaf2): pruning the lowest clone turns its parent into a leaf
+    data6 = gridoracle.data_from_tables(gridoracle.int_tables(6, 2, 5, seed + 4), outlier_prob=0.0)
+    for shape in ([[0, 1, 2, 3], [2, 3], [3]], [[0, 1, 2, 3, 4, 5], [2, 3, 4, 5], [4, 5], [5]], [[0, 1, 2], [1, 2], [2], [3, 4, 5], [4, 5]]):
+        key = absstate.canon({"f": shape, "o": []})
+        sub = [dp for dp in data6 if dp.idx in absstate.data_ids(key)]
+        for rep_ in range(12 if thorough else 6):
+            rng = np.random.default_rng(seed + 100 * rep_ + len(shape))
+            prg = PruneRegraphSampler(td, rng)
+            t = absstate.build(key, sub)
+            sh.ctx = "prune-regraft sampler on the chain %s, repetition %d" % (absstate.key_str(key), rep_)
+            for _ in range(4):
+                t = prg.sample_tree(t)
+
+
 def key_collisions(ck, n_arrays):
     """Different arguments must not share a memo key: the real key objects of the two convolution memo tables are
     built for n_arrays different likelihood grids (as many as a long run on a large input produces) and compared.  With
@@ -437,6 +487,7 @@ def run(corrupt=None):
         adversarial_arrays(sh, ck.seed)
         adversarial_alpha(sh, ck.seed, thorough)
         adversarial_mutation(sh, ck.seed)
+        edit_histories(sh, ck.seed, thorough)
         try:
             library_driving(sh, ck.seed, thorough)
         except Exception as ex:
